@@ -27,9 +27,12 @@
    whole-value span from the first byte of the value to the same end, white space before the comma or the line end excluded
    (C09_general_result_fields); parameters of a bare URI are treated as header parameters (same statement, twin states).
    The expires summary (NestMsg.v): C09_expires_summary_bounds_every_value.
-   PARTIAL: display names (token or quoted) in front of the general parameter part, white space inside quoted values, commas
-   inside the brackets: render/parse oracle on values, lists and messages (offsets != 0, chunked, reused objects) and
-   correspondence. *)
+   Any display name in front (C09_display_name_uri, C09_display_name_uri_and_parameters and their _then_comma forms): nothing, token
+   words separated by LWS, or a quoted string (escapes; commas inside do not split) followed by more words, then "<" uri ">",
+   with or without the general parameter part: the name is reported from its first byte up to the "<", the URI without the
+   brackets, the whole-value span from the first byte of the name.
+   PARTIAL: white space inside quoted strings, commas inside the brackets, a "*" value, header counts at the list level for the
+   general shapes: render/parse oracle on values, lists and messages (offsets != 0, chunked, reused objects) and correspondence. *)
 From Sipsp Require Import Harness IP4 Numbers Misc NameAddrSpec NameAddrParam ContactSpec Capacity UpperBound NestMsg SigCoherent HdrSpec TokItem NameAddrGen.
 Theorem C09_contact_expires_value : forall ds, all_digits ds -> expires_of ds = N.min (dec ds) MaxU32.
 Proof. exact contact_expires_saturates. Qed.
@@ -228,6 +231,82 @@ Proof.
   all: try (eexists; eexists; split; [reflexivity|split; [reflexivity|repeat constructor]]).
   all: try (apply vt_tok; [exact I|repeat constructor]).
 Qed.
+(* ---- any display name in front of the bracketed URI: token words, or a quoted string, then more words ----------------------------------- *)
+Theorem C09_display_name_uri : forall h (junk D uri sp : list byte) x tail, disp D -> Forall uchar uri -> spaces sp -> is_sp x = false ->
+  let i0 := nnat (length junk) in let us := i0 + nnat (length D) + 1 in let lu := nnat (length uri) in
+  parse_nameaddr h (junk ++ bhead D uri ++ sp ++ CR :: LF :: x :: tail) i0 pfrom0 = Done (us + lu + 1 + nnat (length sp) + 2) EOk (fD h (dname i0 D) i0 us lu).
+Proof. exact nameaddr_display_uri_eol. Qed.
+Theorem C09_display_name_uri_then_comma : forall h (junk D uri g y : list byte), multipleValsOk h = true -> disp D -> Forall uchar uri -> gap 0 g ->
+  let i0 := nnat (length junk) in let us := i0 + nnat (length D) + 1 in let lu := nnat (length uri) in
+  parse_nameaddr h (junk ++ bhead D uri ++ g ++ (44 : byte) :: y) i0 pfrom0 = Done (us + lu + 1 + nnat (length g) + 1) EMoreValues (fD h (dname i0 D) i0 us lu).
+Proof. exact nameaddr_display_uri_comma. Qed.
+Theorem C09_display_name_uri_and_parameters : forall h (junk D uri g : list byte) L t (sp : list byte) x tail,
+  disp D -> Forall uchar uri -> gap 0 g -> Forall t_ok L -> t_ok t -> spaces sp -> is_sp x = false ->
+  let i0 := nnat (length junk) in let us := i0 + nnat (length D) + 1 in let lu := nnat (length uri) in
+  let i := us + lu + 1 + nnat (length g) + 1 in let j := i + nnat (length (its_bytes L)) in
+  parse_nameaddr h (junk ++ bhead D uri ++ g ++ (59 : byte) :: its_bytes L ++ t_body t ++ sp ++ CR :: LF :: x :: tail) i0 pfrom0
+  = Done (t_d j t + nnat (length sp) + 2) EOk (finW h (t_d j t) (t_apply false j t (its_state false i L (bD (dname i0 D) i0 us lu)))).
+Proof. exact nameaddr_display_params_eol. Qed.
+Theorem C09_display_name_uri_and_parameters_then_comma : forall h (junk D uri g : list byte) L t (y : list byte),
+  multipleValsOk h = true -> disp D -> Forall uchar uri -> gap 0 g -> Forall t_ok L -> t_ok t ->
+  let i0 := nnat (length junk) in let us := i0 + nnat (length D) + 1 in let lu := nnat (length uri) in
+  let i := us + lu + 1 + nnat (length g) + 1 in let j := i + nnat (length (its_bytes L)) in
+  parse_nameaddr h (junk ++ bhead D uri ++ g ++ (59 : byte) :: its_bytes L ++ t_body t ++ t_g4 t ++ (44 : byte) :: y) i0 pfrom0
+  = Done (t_d j t + nnat (length (t_g4 t)) + 1) EMoreValues (finW h (t_d j t) (t_apply false j t (its_state false i L (bD (dname i0 D) i0 us lu)))).
+Proof. exact nameaddr_display_params_comma. Qed.
+(* the display part: nothing; a word; a word and white space; a word, white space, more words; a quoted string and more words.  The
+   name reported runs from its first byte up to the "<" (what the library's own test expects); URI and whole-value span as written *)
+Theorem C09_display_part_means : forall D, disp D <->
+  D = [] \/
+  (exists n0 name, D = n0 :: name /\ nchar0 n0 /\ Forall nchar name) \/
+  (exists n0 name w, D = (n0 :: name) ++ w /\ nchar0 n0 /\ Forall nchar name /\ wsrun 0 w) \/
+  (exists n0 name w c T, D = (n0 :: name) ++ w ++ c :: T /\ nchar0 n0 /\ Forall nchar name /\ wsrun 0 w /\ nchar0 c /\ ntail T) \/
+  (exists q T, D = (34 : byte) :: q ++ (34 : byte) :: T /\ fqc q /\ ntail T).
+Proof.
+  intros D. split.
+  - intros [|n0 name H1 H2|n0 name w H1 H2 H3|n0 name w c T H1 H2 H3 H4 H5|q T H1 H2].
+    + left; reflexivity.
+    + right; left. exists n0, name. auto.
+    + right; right; left. exists n0, name, w. auto.
+    + right; right; right; left. exists n0, name, w, c, T. auto 6.
+    + right; right; right; right. exists q, T. auto.
+  - intros [->|[(n0 & name & -> & H1 & H2)|[(n0 & name & w & -> & H1 & H2 & H3)|[(n0 & name & w & c & T & -> & H1 & H2 & H3 & H4 & H5)|(q & T & -> & H1 & H2)]]]].
+    + constructor.
+    + apply d_word; assumption.
+    + apply d_word_ws; assumption.
+    + apply d_words; assumption.
+    + apply d_quoted; assumption.
+Qed.
+Theorem C09_display_result_means : forall h nm i0 us lu D uri,
+  fD h nm i0 us lu = mkpfrom nm (mkpf us lu) pf0 false false false h 0 0 pf0 (mkpf i0 (us + lu + 1 - i0)) EOk 0 FbFIN 0 0 0 0 0 /\
+  bD nm i0 us lu = mkpfrom nm (mkpf us lu) pf0 false false false 0 0 0 pf0 (mkpf i0 (us + lu + 1 - i0)) EOk 0 FbNewParam 0 0 0 0 0 /\
+  dname i0 D = (match D with [] => pf0 | _ => mkpf i0 (nnat (length D)) end) /\ bhead D uri = D ++ (60 : byte) :: uri ++ [(62 : byte)].
+Proof. intros. repeat split; try reflexivity. destruct D; reflexivity. Qed.
+(* satisfiable and evaluated: X"B,b" <s:a>;tag=x CR LF at offset 1 (the comma inside the quotes does not split), and
+   Al Bo<s> , - two words, then a comma after white space *)
+Example C09_display_example :
+  let D1 := (34 : byte) :: [66;44;98] ++ (34 : byte) :: [32] in let t := mkpit [] [116;97;103] (Some ([], [], [120])) [] in
+  disp D1 /\ t_ok t /\
+  [88] ++ bhead D1 [115;58;97] ++ [] ++ (59 : byte) :: its_bytes [] ++ t_body t ++ [] ++ CR :: LF :: [65]
+  = [88; 34;66;44;98;34; 32; 60; 115;58;97; 62; 59; 116;97;103;61;120; 13;10; 65] /\
+  finW HdrFrom (t_d 13 t) (t_apply false 13 t (its_state false 13 [] (bD (dname 1 D1) 1 8 3)))
+  = mkpfrom (mkpf 1 6) (mkpf 8 3) (mkpf 17 1) false false false HdrFrom 0 0 (mkpf 13 5) (mkpf 1 17) EOk 0 FbFIN 0 0 0 0 0 /\
+  let D2 := [65;108] ++ [32] ++ 66 :: [111] in
+  disp D2 /\ bhead D2 [115] ++ [32] ++ 44 :: [60] = [65;108;32;66;111; 60;115;62; 32; 44; 60] /\
+  fD HdrContact (dname 0 D2) 0 6 1 = mkpfrom (mkpf 0 5) (mkpf 6 1) pf0 false false false HdrContact 0 0 pf0 (mkpf 0 8) EOk 0 FbFIN 0 0 0 0 0.
+Proof.
+  assert (Ws : wsrun 0 [32]) by (apply wsrun_blanks; [discriminate|repeat constructor]).
+  cbv zeta. split; [|split; [|split; [vm_compute; reflexivity|split; [vm_compute; reflexivity|split; [|split; vm_compute; reflexivity]]]]].
+  - apply (d_quoted [66;44;98] [32]); [repeat (apply fqc_plain; [discriminate|discriminate|discriminate|]); apply fqc_nil|apply nt_w; exact Ws].
+  - unfold t_ok. cbn [t_g1 t_name t_val t_g4]. repeat split; try (left; reflexivity).
+    + exists 116, [97;103]. split; [reflexivity|split; [reflexivity|repeat constructor]].
+    + apply vt_tok; [exact I|constructor].
+  - apply (d_words 65 [108] [32] 66 [111]); [exact I|repeat constructor|exact Ws|exact I|apply nt_c; [exact I|constructor]].
+Qed.
+Print Assumptions C09_display_name_uri.
+Print Assumptions C09_display_name_uri_then_comma.
+Print Assumptions C09_display_name_uri_and_parameters.
+Print Assumptions C09_display_name_uri_and_parameters_then_comma.
 Print Assumptions C09_bracketed_uri_and_parameters.
 Print Assumptions C09_bracketed_uri_and_parameters_then_comma.
 Print Assumptions C09_bare_uri_and_parameters.
